@@ -34,7 +34,7 @@ def futex_job(sc, na, rec, desc, wit, buckets=4, timeout=900):
     incs = [os.path.join(REPO, 'futex'), os.path.join(REPO, 'w2c2')]
     defs = ['-DSC=%d' % sc, '-DNA=%d' % na, '-DWASM_THREADS_PTHREADS', '-DW2C2_VERIF=1'] + (['-DW2C2_VERIF_FUTEX_BUCKET_COUNT=%d' % buckets] if buckets else [])
     return Job('futex_sc%d_%s' % (sc, 'b%d' % buckets if buckets else 'b1024'), [src], incs=incs, defs=defs, unwind=rec,
-               flags=['--no-malloc-may-fail', '--object-bits', '10', '--unwindset', US], backends=['sat', 'kissat'], witnesses=wit, timeout=timeout,
+               flags=['--no-malloc-may-fail', '--object-bits', '12' if sc >= 6 else '10', '--unwindset', US], backends=['sat', 'kissat'], witnesses=wit, timeout=timeout,
                replay=dict(sources=[src], incs=incs, defs=defs, asan=True),
                sample={'scenario': desc, 'agents': na, 'buckets': buckets or 1024, 'schedules': 'all nested schedules, both start orders, <=1 spurious wake-up per waiter'})
 
